@@ -164,9 +164,12 @@ def suite_pages(tier: str, seed: int, mult: int) -> SuiteResult:
     try:
         # (bytes per row, dtype, rows): sizes on both sides of the 2 MiB granularity
         shapes = [(256, "uint8", 8000), (256, "uint8", 8192), (256, "uint8", 8193), (256, "uint8", 20000), (128, "uint8", 33000),
-                  (100, "uint8", 3000), (64, "uint8", 40000), (256, "uint16", 9000), (32, "uint8", 70000)]
+                  (100, "uint8", 3000), (64, "uint8", 40000), (256, "uint16", 9000), (32, "uint8", 70000),
+                  # row sizes that do not divide 2 MiB, with MORE rows than fit in 2 MiB (nothing may be released: a release
+                  # would run ahead of the read cursor)
+                  (1000, "uint8", 2300), (100, "uint8", 21500), (3, "uint8", 700000)]
         if tier == "quick":
-            shapes = [shapes[i] for i in (1, 2, 3, 5, 7)]
+            shapes = [shapes[i] for i in (1, 2, 3, 5, 7, 9, 10)]
         plan = [(sh, pk) for sh in shapes for pk in (["none", None] if tier == "quick" else ["none", "array", "file", "list"])]
         for (ncols, dt, nrows), pk in plan * mult:
             packed = dt == "uint8"
